@@ -3,9 +3,16 @@
 package fs
 
 import (
+	"errors"
+	"io"
 	"os"
 	"path/filepath"
+	"strings"
 	"syscall"
+	"time"
+
+	"github.com/tinode/chat/server/store"
+	"github.com/tinode/chat/server/store/types"
 )
 
 // C16 (stored bytes of collected uploads): the file-system media handler's Delete removes the bytes of EVERY
@@ -62,6 +69,91 @@ func Harness_C16_fs_delete_batch() {
 		}
 		_ = present[i]
 		verifAssert(!exists, "bytes-of-every-collected-upload-are-removed")
+	}
+	verifReach("end")
+}
+
+// ---- a failed copy: Upload creates the file, records the upload, copies the bytes. If the copy fails part-way
+// (disk full, read fault) the failure is reported and the partial file is removed - never handed out as a
+// completed upload.
+
+var verifCopyFails bool
+
+//verif:override os.Create
+func verifCreate(name string) (*os.File, error) {
+	verifFS[name] = true
+	return new(os.File), nil
+}
+
+//verif:override (*os.File).Close
+func verifFileClose(f *os.File) error { return nil }
+
+//verif:override io.Copy
+func verifCopy(dst io.Writer, src io.Reader) (int64, error) {
+	if verifCopyFails {
+		return 3, errors.New("verif: copy fault")
+	}
+	return 10, nil
+}
+
+// natively: a reader that fails after a few bytes
+type verifFaultyReader struct {
+	r     *strings.Reader
+	fails bool
+}
+
+func (f *verifFaultyReader) Read(p []byte) (int, error) {
+	if f.fails && f.r.Len() <= 7 {
+		return 0, errors.New("verif: read fault")
+	}
+	if len(p) > 3 {
+		p = p[:3]
+	}
+	return f.r.Read(p)
+}
+func (f *verifFaultyReader) Seek(offset int64, whence int) (int64, error) { return f.r.Seek(offset, whence) }
+
+type verifFilesFS struct{ started int }
+
+func (f *verifFilesFS) StartUpload(fd *types.FileDef) error { f.started++; return nil }
+func (f *verifFilesFS) FinishUpload(fd *types.FileDef, success bool, size int64) (*types.FileDef, error) {
+	return fd, nil
+}
+func (f *verifFilesFS) Get(fid string) (*types.FileDef, error)             { return nil, nil }
+func (f *verifFilesFS) DeleteUnused(olderThan time.Time, limit int) error { return nil }
+func (f *verifFilesFS) LinkAttachments(topic string, msgId types.Uid, attachments []string) error {
+	return nil
+}
+
+func Harness_C16_fs_upload_copy_fault() {
+	dir := "/verif-uploads"
+	if !verifIsSymbolicEngine() {
+		d, err := os.MkdirTemp("", "verif-fs")
+		if err != nil {
+			panic(err)
+		}
+		defer os.RemoveAll(d)
+		dir = d
+	}
+	verifFS = map[string]bool{}
+	store.Files = &verifFilesFS{}
+	verifCopyFails = verifNondetBool("copyFails")
+	fh := &fshandler{fileUploadLocation: dir, serveURL: "/v0/file/s/"}
+	fdef := &types.FileDef{ObjHeader: types.ObjHeader{Id: types.Uid(12345).String()}, User: types.Uid(7).String()}
+	src := &verifFaultyReader{r: strings.NewReader("0123456789"), fails: verifCopyFails}
+	url, size, err := fh.Upload(fdef, src)
+	exists := false
+	if verifIsSymbolicEngine() {
+		exists = verifFS[fdef.Location]
+	} else if _, e := os.Stat(fdef.Location); e == nil {
+		exists = true
+	}
+	if verifCopyFails {
+		verifAssert(err != nil && url == "", "failed-upload-is-reported")
+		verifAssert(!exists, "failed-upload-leaves-no-stored-bytes")
+	} else {
+		verifAssert(err == nil && size == 10 && url != "", "upload-stored-byte-for-byte")
+		verifAssert(exists, "completed-upload-has-its-bytes")
 	}
 	verifReach("end")
 }
